@@ -21,9 +21,18 @@ SCENARIOS = {}
 
 
 class Scenario(object):
-    def __init__(self, prop, name, func, fns, quick, thorough, doc):
+    def __init__(self, prop, name, func, fns, quick, thorough, doc, native=None):
         self.prop, self.name, self.func, self.fns = prop, name, func, fns
         self.quick, self.thorough, self.doc = quick, thorough, doc
+        self.native = native
+
+    def native_instances(self, tier):
+        """instances that are (additionally) executed on native floats against the untouched package: run-time checking of
+        the same contract, for defects that only exist in floating point (outside assumption A1); never counted as proved"""
+        if self.native is None:
+            return []
+        lst = self.native(tier) if callable(self.native) else self.native
+        return list(lst)
 
     def instances(self, tier):
         src = self.thorough if (tier == 'thorough' and self.thorough is not None) else self.quick
@@ -31,14 +40,14 @@ class Scenario(object):
         return list(lst)
 
 
-def scenario(prop, fns, quick, thorough=None, name=None):
+def scenario(prop, fns, quick, thorough=None, name=None, native=None):
     """Register a scenario.
     prop: property id; fns: real functions under this contract (qualified names);
     quick / thorough: list of parameter dicts (the *stated bounded shape family*), or a callable
     returning one.  thorough defaults to quick."""
     def deco(f):
         nm = name or f.__name__
-        SCENARIOS[(prop, nm)] = Scenario(prop, nm, f, list(fns), quick, thorough, f.__doc__ or '')
+        SCENARIOS[(prop, nm)] = Scenario(prop, nm, f, list(fns), quick, thorough, f.__doc__ or '', native)
         return f
     return deco
 
